@@ -4,7 +4,9 @@
 
      OsuMap.rate(by):     osu = super(OsuMap, self.deepcopy()).rate(by)      -> Map.rate = rate_lists on the timed lists
                           osu.samples.offset /= by                           -> one column edit on the sample-event list
-                          osu.preview_time /= by                             -> ONE float division, whatever the value
+                          if osu.preview_time != -1: osu.preview_time /= by  -> the marker -1 ("no preview point") is kept
+                                                                                (repo commit 09d92a7; before it: divided
+                                                                                whatever the value = osu_rate_OLD below)
      MapSet.rate(by):     copy = self.deepcopy(); copy.maps = [m.rate(by=by) for m in copy.maps]
      SMMapSet.rate(by):   sms = MapSet.rate(by); sms.sample_start /= by; sms.sample_length /= by;
                           if sms.offset is not None: sms.offset /= by
@@ -34,7 +36,16 @@ Record sm_file := mkSmFile { sf_charts : list (list ulist); sf_offset : option Q
 Definition col_div_offset (by_ : Q) (u : ulist) : ulist :=
   mkUlist (u_cols u) (list_assign (u_cols u) COL_OFFSET ADiv (u_rows u) [] by_ true).
 
+(* osu: PreviewTime -1 is the format's marker for "no preview point" (the dataclass default); any other value is a time *)
+Definition PREVIEW_UNSET : Q := -1.
+(* if osu.preview_time != -1: osu.preview_time /= by     (comparison by value: -1 and -1.0 are the marker) *)
+Definition osu_preview_rate (by_ p : Q) : Q := if Qeq_bool p PREVIEW_UNSET then p else py_div p by_.
+
 Definition osu_rate (by_ : Q) (f : osu_file) : osu_file :=
+  mkOsuFile (rate_lists by_ (of_lists f)) (col_div_offset by_ (of_samples f)) (osu_preview_rate by_ (of_preview f)) (of_meta f).
+(* OLD model (before repo commit 09d92a7): the preview value was divided whatever it held.  Kept only so that the defect
+   it had stays stated and checkable (C13_OLD_osu_preview_unset_refuted). *)
+Definition osu_rate_OLD (by_ : Q) (f : osu_file) : osu_file :=
   mkOsuFile (rate_lists by_ (of_lists f)) (col_div_offset by_ (of_samples f)) (py_div (of_preview f) by_) (of_meta f).
 
 (* MapSet.rate: every chart of the set is rated on its own (one stacker per chart) *)
@@ -46,17 +57,17 @@ Definition sm_mapset_rate (by_ : Q) (f : sm_file) : sm_file :=
            (py_div (sf_sample_start f) by_) (py_div (sf_sample_length f) by_) (sf_meta f).
 
 (* ------------------------------------------------------------------ specification *)
-(* uniform scaling: every time-valued field divided by r, the lists scaled (rate_spec), the rest equal *)
+(* uniform scaling: every time-valued field divided by r, the lists scaled (rate_spec), the rest equal; the preview value is a
+   time unless it is the marker -1, which is kept *)
+Definition preview_scaled (by_ p : Q) : Q := if Qeq_bool p (-1) then p else Qred (p / by_).
 Definition osu_file_scaled (by_ : Q) (f : osu_file) : osu_file :=
-  mkOsuFile (rate_spec by_ (of_lists f)) (scale_ulist by_ (of_samples f)) (Qred (of_preview f / by_)) (of_meta f).
+  mkOsuFile (rate_spec by_ (of_lists f)) (scale_ulist by_ (of_samples f)) (preview_scaled by_ (of_preview f)) (of_meta f).
 Definition sm_file_scaled (by_ : Q) (f : sm_file) : sm_file :=
   mkSmFile (map (rate_spec by_) (sf_charts f)) (option_map (fun o => Qred (o / by_)) (sf_offset f))
            (Qred (sf_sample_start f / by_)) (Qred (sf_sample_length f / by_)) (sf_meta f).
 
-(* osu: PreviewTime -1 is the format's marker for "no preview point" (the dataclass default); any other value is a time.
-   What a chart SAYS about its preview point, and the reading of the property under which the marker is not a time:
-   a chart without a preview point has none after the rate change *)
-Definition PREVIEW_UNSET : Q := -1.
+(* What a chart SAYS about its preview point, and the reading of the property under which the marker is not a time:
+   a chart without a preview point has none after the rate change, a chart with one has it at time / r *)
 Definition preview_point (p : Q) : option Q := if Qeq_bool p PREVIEW_UNSET then None else Some p.
 Definition opt_q_eqb (a b : option Q) : bool :=
   match a, b with None, None => true | Some x, Some y => Qeq_bool x y | _, _ => false end.
